@@ -49,6 +49,7 @@ WRITE_PRIMS = {
     "os.replace": 1, "os.rename": 1, "os.remove": 0, "os.unlink": 0, "os.rmdir": 0, "os.truncate": 0,
     "shutil.move": 1, "shutil.copy": 1, "shutil.copyfile": 1, "shutil.copy2": 1, "shutil.copymode": 1,
     "shutil.copystat": 1, "shutil.rmtree": 0, "os.open": 0, "os.link": 1, "os.symlink": 1,
+    "os.chmod": 0, "os.lchmod": 0, "os.chown": 0, "os.utime": 0, "os.chflags": 0, "shutil.chown": 0,
 }  # fmt: skip
 # … of which these never touch the file system and accept any str (no ValueError for an embedded null byte)
 PURE_STRING = {"os.path.join", "os.path.basename", "os.path.dirname", "os.fspath", "os.path.normpath", "isinstance", "len", "str", "repr"}
